@@ -68,12 +68,14 @@ Definition drain_wait_result (g : guard) (maxw : Z) (sessions : nat) (idle_at ca
   else if first timer cancel_at idle_at then 2%N
   else 3%N.
 
-(* remainingReloadRetirementBudget reads the real clock: equal up to 60 ms *)
+(* remainingReloadRetirementBudget reads the real clock: the real value may be smaller than the model's
+   by the scheduling delay between taking the time stamp and the call (generously 5 s; the generator
+   keeps every input at least that far from a boundary), never larger *)
 Definition obs_close (o : cop) (a b : obs) : bool :=
   match o with
   | OBudget _ _ _ =>
       let x := o_ret a in let y := o_ret b in
-      (N.leb x (y + 60000000) && N.leb y (x + 60000000))%N
+      (N.leb x y && N.leb y (x + 5000000000))%N
       && obs_eqb a (Build_obs (o_pending b) (o_active b) (o_reloading b) (o_supp b) (o_qlen b) (o_code b) (o_msg b) (o_suppressed b) x)
   | _ => obs_eqb a b
   end.
